@@ -41,6 +41,10 @@ def main():
             shutil.rmtree(env["VERIF_EVID_DIR"], ignore_errors=True)
             flagged = p.returncode == 1 and "VIOLATION property=%s" % pid in p.stdout
             clause = [l for l in p.stdout.splitlines() if "failing clause" in l][:1]
+            if m.get("benign"):
+                results.append((m["name"], "CAUGHT(benign stays quiet)" if p.returncode == 0 else "MISSED: FALSE ALARM on benign change: " + (clause[0][:140] if clause else "")))
+                print("%-40s %s" % results[-1], flush=True)
+                continue
             results.append((m["name"], ("CAUGHT " + (clause[0].strip()[:140] if clause else "")) if flagged
                             else "MISSED (rc=%d) %s" % (p.returncode, p.stdout.strip().splitlines()[-1][:200] if p.stdout.strip() else "")))
             print("%-40s %s" % results[-1], flush=True)
